@@ -27,7 +27,7 @@ const char *bop_name(int k);
 int bop_count();
 void *pool_build(uint64_t seed);
 void pool_destroy(void *pool);
-void *priv_new();
+void *priv_new(const void *pool);      // (called by the main thread: the objects are handed to their thread before it starts)
 void priv_delete(void *p);
 uint64_t do_op(const void *pool, void *priv, const BOp &op);
 uint64_t step_budget_for(const BOp &op);
